@@ -28,7 +28,9 @@ MODES = [("dyn", "probe/start"), ("static", "probe/start-static"), ("spie", "pro
 # further static-PIE link variants (a reduced list of cases each; relocation image judged like "spie"):
 #   spie-rel:  linked by lld with `-z rel` - REL relocations (implicit addends), the other loop of DynSection::relocate
 #   spie-base: linked at image base 0x200000 - link-time addresses are not file offsets
-LINK_VARIANTS = [("spie-rel", "probe/start-spie-rel"), ("spie-base", "probe/start-spie-base")]
+#   spie-apply: linked by lld with --apply-dynamic-relocs - RELA entries whose places already hold the addend (a RELA
+#               relocation must OVERWRITE the place)
+LINK_VARIANTS = [("spie-rel", "probe/start-spie-rel"), ("spie-base", "probe/start-spie-base"), ("spie-apply", "probe/start-spie-apply")]
 KEYS = [[], [65], [65, 66], [65, 66, 67], [65, 66, 67, 68], [66], [67]]
 # keys that no name can equal: containing '=' or an embedded NUL (only `var` can take the latter: a &UnixStr holds none)
 ODD_KEYS = [[65, 61], [61, 65], [61], [65, 0], [0], [65, 61, 120, 0, 66]]
@@ -140,6 +142,12 @@ def model_check_aux(chk, tier):
         info.append({"cfg": "Vdso_any_pinned.cfg", "expected_counterexample_found": "PinnedAdmissible" in res.invariant_violated})
         if "PinnedAdmissible" not in res.invariant_violated:
             raise core.ToolError("Vdso_any_pinned: the pinned walk was not rejected (vacuous invariant?)")
+    if tier != "quick":
+        # anti-vacuity: RELA entries that ADD to their place must be refuted by the same invariant
+        res = core.run_tlc("Reloc_MC.tla", "Reloc_rela_adds.cfg", workers=4, timeout=3000, xmx="4g")
+        info.append({"cfg": "Reloc_rela_adds.cfg", "expected_counterexample_found": "ImageCorrect" in res.invariant_violated})
+        if "ImageCorrect" not in res.invariant_violated:
+            raise core.ToolError("Reloc_rela_adds: the adding RELA variant was not rejected (vacuous invariant?)")
     if tier != "quick":
         res = core.run_tlc("Reloc_MC.tla", "Reloc_dynfirst.cfg", workers=4, timeout=3000, xmx="4g")
         info.append({"cfg": "Reloc_dynfirst.cfg", "lead_decided_by_model": "PT_DYNAMIC as FIRST program header is never seen by the walk "
